@@ -10,6 +10,8 @@ Streams (model `Wpull.Request` vs the real code in the repo under test):
            trace acceptance, end to end: the REAL application (Builder -> pipeline, URL table, web processor,
            FetchRule/ResultRule, TriesFilter, WebClient) against the same strategies x tries 0..4: the visits of
            the URL as seen at the URL table (requests per visit, status and try_count checked in) vs the model
+  restart  the real application on a persistent --database against always-failing pages; runs die in a forked child while an
+           attempt is in flight and are restarted on the same database: completed failed attempts over all runs <= tries
 Direct oracle on the real runs: redirect follow-ups per visit <= max_redirects; requests per visit
 <= 2*(max_redirects+1); authentication retries per visit <= 1 (the sentence) — more is the listed finding;
 exactly one check-in per visit, try_count +1; visits that issue a request (page or robots.txt) <= tries (tries >= 1);
@@ -149,6 +151,7 @@ def robots_strategies(n):
     out['robots-404'] = ([rep(404)], False)
     out['robots-garbage'] = ([{'status': 0, 'mode': 'garbage'}], False)
     out['robots-redirect-cycle'] = ([rep(302, b'/robots.txt') for _ in range(n)], False)
+    out['robots-redirect-chain'] = ([rep(R[k % 5], b'/robots.txt?hop=%d' % k) for k in range(n)], False)
     out['robots-alt-reset-500'] = ([({'status': 0, 'mode': 'close'} if k % 2 else rep(500)) for k in range(n)], False)
     out['robots-401-forever'] = ([rep(401) for _ in range(n)], False)
     return out
@@ -192,8 +195,10 @@ def check_crawl(ctx, case):
                          % (v['try_before'], tries, v['requests'], v['robots_requests']))
         if v['requests']:
             oracle_visit(ctx, case, replies[k:], v['requests'], m, 'WebProcessorSession')
-        if v['robots_requests'] > 2 * (m + 1):
-            ctx.fail('too-many-requests', 'RobotsTxtChecker', case, '%d robots.txt requests in one visit' % v['robots_requests'])
+        if v['robots_requests'] > m + 1:
+            # the robots.txt fetch has no login: one request plus at most max_redirects follow-ups
+            ctx.fail('too-many-requests', 'RobotsTxtChecker', case,
+                     '%d robots.txt requests in one visit with max_redirects=%d' % (v['robots_requests'], m))
         k += v['requests']
     ins = [e for e in res['events'] if e[0] == 'in']
     outs = [e for e in res['events'] if e[0] == 'out']
@@ -211,6 +216,49 @@ def check_crawl(ctx, case):
     ctx.sample({'stream': 'crawl', 'strategy': case.get('name'), 'robots': case.get('robots_name'), 'tries': tries,
                 'max_redirects': m, 'visits': real})
     return res
+
+
+# ------------------------------------------------------------------ kill / restart on a persistent database
+def check_restart(ctx, case):
+    """The real application with --database FILE against pages that always fail; some runs die (os._exit in a
+    forked child) while an attempt is in flight, the next run continues on the same database."""
+    import os
+    import shutil
+    import tempfile
+    tries, kills, status = case['tries'], case['kills'], case.get('status', 500)
+    tmp = tempfile.mkdtemp(prefix='c18r-')
+    db = os.path.join(tmp, 'crawl.db')
+    log = os.path.join(tmp, 'log.txt')
+    runs = []
+    try:
+        for kill_at in list(kills) + [None]:
+            open(log, 'w').close()
+            st = rc.crawl_in_child(log, kill_at, url=case['url'], replies=[rep(status) for _ in range(60)], tries=tries,
+                                   max_redirects=2, extra_argv=['--database', db], cap=tries + 6)
+            lines = open(log).read().split('\n')
+            runs.append({'kill_at': kill_at, 'lines': [l for l in lines if l], 'status': st})
+            if kill_at is not None and 'killed' not in lines:
+                break           # the run ended before the kill point was reached: nothing left to restart
+    finally:
+        shutil.rmtree(tmp, ignore_errors=True)
+    requests = sum(1 for r in runs for l in r['lines'] if l.startswith('req '))
+    killed = sum(1 for r in runs if 'killed' in r['lines'])
+    completed = requests - killed
+    trace = ' | '.join(','.join(r['lines']) for r in runs)
+    ctx.case(('restart', repr(case)), tags=['restart:tries=%d' % tries, 'restart:kills=%d' % killed])
+    last = runs[-1]
+    if any(l.startswith('crash') for r in runs for l in r['lines']):
+        raise Infra('restart child crashed: ' + trace[:400])
+    if 'killed' not in last['lines'] and not any(l.startswith('end capped=0 hung=0') for l in last['lines']):
+        ctx.fail('no-termination', 'Application.run', case, 'the run after the restarts did not end: ' + trace[:500])
+    if tries >= 1 and completed > tries:
+        ctx.fail('too-many-tries', 'URLTable.release', case,
+                 '%d completed failed attempts (+%d interrupted) over %d runs with tries=%d: %s' % (completed, killed, len(runs), tries, trace[:600]))
+    tcs = [int(l.split()[2]) for r in runs for l in r['lines'] if l.startswith('in ')]
+    outs = [int(l.split()[2]) for r in runs for l in r['lines'] if l.startswith('out ')]
+    if any(b < a for a, b in zip(outs, outs[1:])):
+        ctx.fail('try-count-reset', 'URLTable.release', case, 'try_count seen at successive check-outs went down: %r (%s)' % (outs, trace[:500]))
+    ctx.sample({'stream': 'restart', 'tries': tries, 'kills': kills, 'trace': trace[:300]})
 
 
 # ------------------------------------------------------------------ entry points
@@ -231,6 +279,8 @@ def replay(ctx, case, kind=None, where=None):
         check_session(ctx, case)
     elif s == 'crawl':
         check_crawl(ctx, case)
+    elif s == 'restart':
+        check_restart(ctx, case)
     else:
         raise Infra('unknown replay stream %r' % s)
 
@@ -264,6 +314,10 @@ def run(ctx):
             script = script[:9]       # unlimited tries: the script must end (then 200)
         check_crawl(ctx, {'stream': 'crawl', 'name': name, 'url': 'http://a.example/x', 'replies': script, 'tries': tries,
                           'max_redirects': m, 'login': login})
+    # persistent database, the process dies while an attempt is in flight, restart
+    for tries, kills in (((2, [1]), (3, [1]), (3, [2]), (3, [1, 1]), (3, [0]), (2, [1, 0, 0]), (4, [3]), (4, [1, 1, 1]), (1, [0]), (3, [2, 0]))
+                         if thorough else ((3, [2]), (3, [1, 1]), (2, [1]), (3, [0, 1]))):
+        check_restart(ctx, {'stream': 'restart', 'url': 'http://a.example/x', 'tries': tries, 'kills': kills})
     # host-level failures: every connection attempt refused / every DNS lookup fails, with and without the retry options
     for host_fail in ('refused', 'dns'):
         for retry in (None, '--retry-connrefused', '--retry-dns-error'):
@@ -282,6 +336,11 @@ def run(ctx):
         keep = [t for t in rtodo if t[0] in ('robots-500-forever', 'robots-reset-forever', 'robots-5xx-then-200', 'robots-alt-reset-500')]
         rest = [t for t in rtodo if t not in keep]
         rtodo = keep + crng.sample(rest, min(len(rest), 10))
+    # the robots.txt fetch must obey --max-redirect as well (it goes through the client the set-up code gives the checker)
+    rs40 = robots_strategies(40)
+    for rname in ('robots-redirect-cycle', 'robots-redirect-chain'):
+        for m in (0, 1, 2, 5):
+            rtodo.append((rname, rs40[rname][0], False, 'redirect-then-404', 2, m))
     for rname, rscript, dis, pname, tries, m in rtodo:
         check_crawl(ctx, {'stream': 'crawl', 'name': pname, 'url': 'http://a.example/x', 'replies': pages[pname], 'tries': tries,
                           'max_redirects': m, 'login': None, 'robots': rscript, 'robots_disallow': dis, 'robots_name': rname})
